@@ -44,6 +44,8 @@ fn reps(class: &str) -> Vec<Vec<u8>> {
         "bslash" => vec![s("a\\tb"), s("C:\\temp"), s("back\\\\slash")],
         "ctrl" => vec![s("a\tb"), s("\x1b[1mbold\x1b[0m"), s("nul\0byte"), s("cr\rhere")],
         "bslash_ctrl" => vec![s("C:\\temp\x01"), s("a\\\tb")],
+        // a carriage return at the end of the line: with CR LF kept (Cram documents) it is content of the line
+        "tail_cr" => vec![s("one\r"), s("two \r"), s("\r")],
         // a backslash together with a NON-ASCII character of category "other" (zero width space, BOM) and no ASCII control
         "bslash_other" => vec![s("C:\\temp\u{200b}x"), s("\u{feff}a\\x41"), s("x\u{200d}\\")],
         "utf8" => vec![s("héllo"), s("日本")],
